@@ -108,6 +108,7 @@ func driveMSM(c *ctx) {
 			return mulG(randBig(r, bigN))
 		}
 	}
+	aliasAt := 0 // > 0: the receiver is this entry of the list (1-based) instead of a drawn one
 	run := func(n int, scPick, ptPick func(i int) int, aliasRecv bool, mism int) {
 		var ssb []*big.Int
 		var ps []*secp256k1.Point
@@ -141,6 +142,9 @@ func driveMSM(c *ctx) {
 			recv := 0
 			if aliasRecv && n > 0 {
 				recv = 1 + r.Intn(n)
+				if aliasAt > 0 && aliasAt <= n {
+					recv = aliasAt
+				}
 				v = pp[recv-1]
 			}
 			pre := ptRaw(v)
@@ -231,6 +235,20 @@ func driveMSM(c *ctx) {
 	for _, n := range longs {
 		run(n, rnd(8), rnd(11), n%2 == 1, 0)
 	}
+	// the receiver at chosen places of a long list: first, last, the middle, and either side of the places where an implementation
+	// might cut the list into chunks (powers of two) - a partial result written to the receiver before a later chunk reads it (round 8)
+	for _, n := range longs {
+		seen := map[int]bool{}
+		for _, at := range []int{1, n, n / 2, 8, 9, 16, 17, 32, 33, 64, 65, 128, 129} {
+			if at < 1 || at > n || seen[at] || (n < 33 && at != 1 && at != n) {
+				continue
+			}
+			seen[at] = true
+			aliasAt = at
+			run(n, rnd(8), rnd(11), true, 0)
+		}
+	}
+	aliasAt = 0
 	for i := 0; i < c.scale(10, 300); i++ {
 		run(2+r.Intn(5), rnd(8), rnd(11), i%2 == 0, 0)
 	}
